@@ -1,7 +1,7 @@
 (* C10 property theorems: statements closed by lemmas of the Proofs*.v files, a non-vacuity Example, Print Assumptions.
    Elements are Z (every Go integer type is a sub-range; the comparator theorems hold on all of Z), strings are
    byte lists, [less] is an arbitrary boolean relation unless hypotheses are stated. *)
-From VF Require Import C10.Model C10.SortModel C10.Spec C10.ProofsCmp C10.ProofsSearch C10.ProofsSpec C10.ProofsPerm
+From VF Require Import C10.Model C10.SortModel C10.Spec C10.CmpSel C10.ProofsCmpSel C10.ProofsCmp C10.ProofsSearch C10.ProofsSpec C10.ProofsPerm
   C10.ProofsInsertion C10.ProofsHeap C10.ProofsPartition C10.ProofsFrame C10.ProofsPartial C10.ProofsPivot C10.ProofsMain
   C10.ProofsStableBase C10.ProofsRotate C10.ProofsSymMerge C10.ProofsStable C10.Check.
 From Coq Require Import QArith Qabs Sorted.
@@ -204,6 +204,41 @@ Theorem C10_stable_checker : forall xs ys,
   tags_increasing_b xs = true -> stable_sorted_b xs ys = true -> SortedBy lt_key ys /\ Stable xs ys.
 Proof. exact stable_sorted_b_sound. Qed.
 
+(* CompareFunc / EqualFunc for an ARBITRARY user comparison / predicate: the exact returned value (the first non-zero
+   cmp result, else the comparison of the lengths; same length and eq on every pair) and the exact calls: pairs
+   (s1[i], s2[i]) with the first argument from s1, in increasing i, up to the first one that decides *)
+Theorem C10_compare_func_spec : forall cmp s1 s2,
+  compare_func cmp s1 s2 = spec_compare_func cmp s1 s2 /\
+  compare_func_tr cmp s1 s2 = (compare_func cmp s1 s2, spec_compare_calls cmp s1 s2) /\
+  (forall p, In p (spec_compare_calls cmp s1 s2) -> In p (combine s1 s2)).
+Proof.
+  intros. split; [apply compare_func_spec|split].
+  - rewrite <- compare_func_tr_fst, <- compare_func_tr_calls. now destruct (compare_func_tr cmp s1 s2).
+  - intros p. apply (spec_calls_oriented cmp (fun _ _ => true) s1 s2 p).
+Qed.
+Theorem C10_equal_func_spec : forall eq s1 s2,
+  equal_func eq s1 s2 = spec_equal_func eq s1 s2 /\
+  equal_func_tr eq s1 s2 = (equal_func eq s1 s2, spec_equal_calls eq s1 s2) /\
+  (forall p, In p (spec_equal_calls eq s1 s2) -> In p (combine s1 s2)).
+Proof.
+  intros. split; [apply equal_func_spec|split].
+  - rewrite <- equal_func_tr_fst, <- equal_func_tr_calls. now destruct (equal_func_tr eq s1 s2).
+  - intros p. apply (spec_calls_oriented (fun _ _ => 0) eq s1 s2 p).
+Qed.
+(* the comparison shapes of the runs are comparators; "cmp < 0" is a legitimate less for the output checker and
+   makes the sign of cmp(e, target) monotone along a sorted slice (BinarySearchFunc's precondition);
+   ReverseComparator returns exactly the negated value *)
+Theorem C10_cmpsel_laws : forall c,
+  TotalPreorder (zcmp_of c) /\
+  (forall a b d, (zcmp_of c b a <? 0) = false -> (zcmp_of c d b <? 0) = false -> (zcmp_of c d a <? 0) = false) /\
+  (forall a b t, (zcmp_of c b a <? 0) = false ->
+     ((zcmp_of c b t <? 0) = true -> (zcmp_of c a t <? 0) = true) /\ ((zcmp_of c b t <=? 0) = true -> (zcmp_of c a t <=? 0) = true)) /\
+  (forall a b, reverse_cmp (zcmp_of c) a b = - zcmp_of c a b).
+Proof.
+  intros c. split; [apply zcmp_of_preorder|split; [apply zcmp_less_trans|split; [apply zcmp_sign_monotone|]]].
+  intros a b. apply reverse_cmp_neg.
+Qed.
+
 (* non-vacuity: lt_full is a strict weak order in the sense of the hypotheses; the identity rounding with every
    rational representable meets the float hypotheses; a concrete input is sorted by the model *)
 Example C10_nonvacuous :
@@ -268,3 +303,6 @@ Print Assumptions C10_rotate.
 Print Assumptions C10_sorted_perm_checker.
 Print Assumptions C10_checker_orders.
 Print Assumptions C10_stable_checker.
+Print Assumptions C10_compare_func_spec.
+Print Assumptions C10_equal_func_spec.
+Print Assumptions C10_cmpsel_laws.
